@@ -21,6 +21,11 @@ type FuncReport struct {
 	Obls        []*Obligation
 	Unsupported string
 	Renamed     string // binding of renamed locals found by verifyFunctionRenamed
+	Alias       map[string]string
+	SetAside    []string // helper invariants that could not be evaluated on this body any more
+	Bounded     int      // > 0: the obligations come from the bounded stand-in (loops unrolled, see unrollLoop)
+	BoundedWhy  string
+	BoundedCuts int
 	Assumptions []string
 	Havocked    []string
 	Inlined     []string
@@ -158,12 +163,61 @@ func verifyFunction(l *Loaded, specs *Specs, ct *Contract) (rep *FuncReport, w *
 
 // verifyFunctionAliased verifies fn with the contract's local-variable names
 // bound to the given locals of the body (contract name -> name in the code).
+// verifyFunctionBounded generates the obligations of the bounded stand-in: every loop unrolled n times, no loop
+// invariant used.
+func verifyFunctionBounded(l *Loaded, specs *Specs, ct *Contract, localAlias map[string]string, n int) (rep *FuncReport, w *World) {
+	rep, w = verifyFunctionOnce(l, specs, ct, localAlias, map[*Clause]bool{}, n)
+	rep.Bounded = n
+	if w != nil {
+		rep.BoundedCuts = w.unrollCuts
+	}
+	return rep, w
+}
+
 func verifyFunctionAliased(l *Loaded, specs *Specs, ct *Contract, localAlias map[string]string) (rep *FuncReport, w *World) {
+	skip := map[*Clause]bool{}
+	var notes []string
+	for round := 0; round < 12; round++ {
+		var again *clauseSkip
+		func() {
+			defer func() {
+				if r := recover(); r != nil {
+					if cs, ok := r.(clauseSkip); ok {
+						again = &cs
+						return
+					}
+					panic(r)
+				}
+			}()
+			rep, w = verifyFunctionOnce(l, specs, ct, localAlias, skip, 0)
+		}()
+		if again == nil {
+			break
+		}
+		skip[again.cl] = true
+		notes = append(notes, fmt.Sprintf("helper invariant '%s' of %s set aside: %s", again.cl.Label, ct.Name, again.msg))
+	}
+	if rep != nil {
+		rep.SetAside = notes
+		rep.Alias = localAlias
+		rep.Assumptions = append(rep.Assumptions, notes...)
+		if w != nil {
+			for _, n := range notes {
+				w.assumption(n)
+			}
+		}
+	}
+	return rep, w
+}
+
+func verifyFunctionOnce(l *Loaded, specs *Specs, ct *Contract, localAlias map[string]string, skip map[*Clause]bool, unroll int) (rep *FuncReport, w *World) {
 	rep = &FuncReport{Pkg: ct.Pkg, Name: ct.Name, Contract: ct}
 	w = newWorld(l, specs)
 	w.curFn = shortPkg(ct.Pkg) + "." + ct.Name
 	w.topContract = ct
 	w.topFrame = nil
+	w.skipClause = skip
+	w.unrollN = unroll
 	w.forgetMark = 0
 	w.witnessTerms = nil
 	w.rawFacts = nil
@@ -173,6 +227,9 @@ func verifyFunctionAliased(l *Loaded, specs *Specs, ct *Contract, localAlias map
 				rep.Unsupported = u.msg
 				rep.Obls = w.obls
 				return
+			}
+			if _, ok := r.(clauseSkip); ok {
+				panic(r)
 			}
 			if os.Getenv("GOAVC_PANIC") != "" {
 				panic(r)
@@ -218,13 +275,35 @@ func verifyFunctionAliased(l *Loaded, specs *Specs, ct *Contract, localAlias map
 		fr.params[w.contractNameOf(p.Name())] = v
 		w.assumeLoaded(st, v)
 	}
+	if len(ct.Captures) > 0 {
+		if len(ct.Captures) != len(fn.FreeVars) {
+			unsupported("contract of %s names %d captured variables, the closure captures %d", ct.Name, len(ct.Captures), len(fn.FreeVars))
+		}
+		// per type, by position (the order of the captured variables follows their first use in the closure)
+		used := map[int]bool{}
+		for _, cn := range ct.Captures {
+			bound := false
+			for i, fv := range fn.FreeVars {
+				if used[i] || (ct.CaptureTypes[cn] != "" && ct.CaptureTypes[cn] != typeKey(deref(fv.Type()))) {
+					continue
+				}
+				used[i] = true
+				w.bindName(cn, fv.Name())
+				bound = true
+				break
+			}
+			if !bound {
+				unsupported("contract of %s: no captured variable of type %s left for %s", ct.Name, ct.CaptureTypes[cn], cn)
+			}
+		}
+	}
 	for _, fv := range fn.FreeVars {
 		ref := &Val{T: w.sc.declare("fv."+fv.Name(), SInt), Typ: fv.Type()}
 		w.sc.assume(and(lt(intLit(0), ref.T), le(ref.T, alloc0)))
 		fr.vals[fv] = ref
 		cur := w.loadPtr(st, ref, fv.Type())
-		fr.params[fv.Name()] = cur
-		fr.params["&"+fv.Name()] = ref
+		fr.params[w.contractNameOf(fv.Name())] = cur
+		fr.params["&"+w.contractNameOf(fv.Name())] = ref
 	}
 	// distinct captured cells
 	for i := 0; i < len(fn.FreeVars); i++ {
@@ -344,13 +423,26 @@ func verifyFunctionAliased(l *Loaded, specs *Specs, ct *Contract, localAlias map
 			if k >= 1 && k <= len(fr.loops.isHeader) {
 				continue
 			}
-			o := w.oblige("loop.init", fmt.Sprintf("loop%d.target", k), tTrue, tFalse, true, ct.Props)
+			star := false
+			if ls := ct.Loops[k]; ls != nil {
+				star = ls.Deterministic && ls.DetStar
+				for _, c := range append(append([]*Clause{}, ls.Invariants...), ls.Steps...) {
+					star = star || c.Star
+				}
+			}
+			if w.unrollN > 0 && !star {
+				continue
+			}
+			o := w.oblige("loop.init", fmt.Sprintf("loop%d.target", k), tTrue, tFalse, star, ct.Props)
 			o.Result = &SolverResult{Status: "target-missing", Output: fmt.Sprintf("the contract has clauses for loop %d of %s, which has %d loop(s)", k, ct.Name, len(fr.loops.isHeader))}
 		}
 	}
 	// an "at" assertion whose instruction no longer exists in the body is undecided, not passed
 	for _, as := range ct.Asserts {
 		if !w.firedAsserts[as] {
+			if w.unrollN > 0 && !as.Clause.Star {
+				continue
+			}
 			props := as.Clause.Props
 			if len(props) == 0 {
 				props = ct.Props
